@@ -78,7 +78,11 @@ func c20Cat(parts ...[]byte) []byte {
 }
 
 type c20Mut struct {
-	Path []int `json:"path"` // descend into the (index mod n)-th field while it is length-delimited
+	// Heavy: first descend this many levels into the largest non-empty
+	// length-delimited field (the spine of a deeply nested encoding), then
+	// follow Path.
+	Heavy int   `json:"heavy,omitempty"`
+	Path  []int `json:"path"` // descend into the (index mod n)-th field while it is length-delimited
 	Op   int   `json:"op"`
 	A    int   `json:"a"`
 	B    int   `json:"b"`
@@ -102,6 +106,21 @@ func c20Abs(x int) int {
 // the enclosing fields are recomputed so that the damage stays local.
 func c20Mutate(bz []byte, m c20Mut, level int) []byte {
 	fs, _ := c20Parse(bz)
+	if m.Heavy > 0 {
+		best := -1
+		for i, f := range fs {
+			if f.typ == 2 && f.ve > f.ps && (best < 0 || f.ve-f.ps > fs[best].ve-fs[best].ps) {
+				best = i
+			}
+		}
+		if best >= 0 {
+			f := fs[best]
+			m2 := m
+			m2.Heavy--
+			np := c20Mutate(bz[f.ps:f.ve], m2, level)
+			return c20Cat(bz[:f.vs], c20Uvarint(uint64(len(np))), np, bz[f.ve:])
+		}
+	}
 	if level < len(m.Path) && len(fs) > 0 {
 		f := fs[c20Abs(m.Path[level])%len(fs)]
 		if f.typ == 2 && f.ve > f.ps {
